@@ -421,14 +421,14 @@ def d11Pcmd : Bytes := [16, 17, 18, 19, 20, 21, 22, 23, 24, 25, 26, 27, 28, 29, 
 def d11Entry : Bytes := le32 0 ++ Wave.Sample.toBytes ⟨0, 4, 12, 0, 0, 8000, 0, 0⟩
 def d11Acc : Acc := { bank := [], wave := Wave.Bank.new 32 0, patch := [] }
 
-/-- D11 seen through the linker (the hypothesis `start = 0` of `C10_pcm_region_sound_partial` is
-needed): a header with start offset 4 and size 12 over `pcmd = 10 … 2f` addresses the bytes
-`14 … 1f`; add_song stores `10 … 1b` (12 bytes, used size 12) and emits a PCM header with address
-4 and size 12, a window that runs past the used PCM bank and does not show the sample. -/
 def d11Result : Acc := match addPcmh 8 16 d11Pcmd d11Entry d11Acc with
   | .ok a => a
   | .error _ => d11Acc
 
+/-- D11 seen through the linker (the hypothesis `start = 0` of `C10_pcm_region_sound_partial` is
+needed): a header with start offset 4 and size 12 over `pcmd = 10 … 2f` addresses the bytes
+`14 … 1f`; add_song stores `10 … 1b` (12 bytes, used size 12) and emits a PCM header with address
+4 and size 12, a window that runs past the used PCM bank and does not show the sample. -/
 theorem C10_offset_window_counterexample :
     addPcmh 8 16 d11Pcmd d11Entry d11Acc = .ok d11Result ∧
     d11Result.bank = [[4, 0, 0, 4, 0, 0, 0, 12]] ∧ d11Result.wave.currentSize = 12 ∧
